@@ -9,13 +9,21 @@ set_option linter.unusedSimpArgs false
 theorem spaceClash_self (a : Tag) : spaceClash a a = none := by simp [spaceClash]
 
 /-- Equal space tags and equal component counts never clash. -/
-theorem tagClash_of_eq (x y : Ty) (hs : x.space? = y.space?) (hd : x.dim? = y.dim?) :
-    tagClash x y = none := by
-  unfold tagClash
+theorem tagClash0_of_eq (x y : Ty) (hs : x.space? = y.space?) (hd : x.dim? = y.dim?) :
+    tagClash0 x y = none := by
+  unfold tagClash0
   rw [hs, hd]
   cases h1 : y.space? <;> cases h2 : y.dim? <;> simp [spaceClash_self]
 
-theorem tagClash_self (x : Ty) : tagClash x x = none := tagClash_of_eq x x rfl rfl
+theorem tagClash_self (x : Ty) : tagClash x x = none := by
+  induction x with
+  | pair a b iha ihb => simp [tagClash, iha, ihb]
+  | _ => simp [tagClash, tagClash0_of_eq]
+
+/-- A value never clashes with its own `Diff` type. -/
+theorem tagClash_diff (x d : Ty) (hd : affineDiff x = some d) (hs : d.space? = x.space?)
+    (hn : d.dim? = x.dim?) : tagClash x d = none := by
+  cases x <;> first | (simp [affineDiff] at hd; done) | simp [tagClash, tagClash0_of_eq _ _ hs.symm hn.symm]
 
 theorem unitClash_of_eq (x y : Ty) (ha : x.isAngle = y.isAngle) (hs : x.isScalar = y.isScalar) :
     unitClash x y = none := by
@@ -51,19 +59,21 @@ theorem affineDiff_tags (x d : Ty) (h : affineDiff x = some d) :
   | unit => simp [affineDiff] at h
 
 /-- Combining a value with its own `Diff` type is never a misuse (for any additive operator). -/
-theorem mis2_diff (o : Op2) (ho : o = .add ∨ o = .sub ∨ o = .mAdd ∨ o = .mSub)
+theorem mis2_diff (o : Op2)
+    (ho : o = .add ∨ o = .sub ∨ o = .mAdd ∨ o = .mSub ∨ o = .addAssign ∨ o = .subAssign)
     (x d : Ty) (hd : affineDiff x = some d) : mis2 o x d = none := by
   obtain ⟨h1, h2, h3, h4, h5⟩ := affineDiff_tags x d hd
-  rcases ho with rfl | rfl | rfl | rfl <;>
-    simp [mis2, h3, tagClash_of_eq x d h1.symm h2.symm, unitClash_of_eq x d h4.symm h5.symm]
+  rcases ho with rfl | rfl | rfl | rfl | rfl | rfl <;>
+    simp [mis2, h3, tagClash_diff x d hd h1 h2, unitClash_of_eq x d h4.symm h5.symm]
 
 /-- Combining two values of the same type is a misuse only for point + point. -/
-theorem mis2_self (o : Op2) (ho : o = .sub ∨ o = .mSub ∨ o = .dot ∨ o = .cross ∨ o = .distance)
+theorem mis2_self (o : Op2)
+    (ho : o = .sub ∨ o = .mSub ∨ o = .subAssign ∨ o = .dot ∨ o = .cross ∨ o = .distance ∨ o = .vproj ∨ o = .min)
     (x : Ty) : mis2 o x x = none := by
-  rcases ho with rfl | rfl | rfl | rfl | rfl <;> simp [mis2, tagClash_self, unitClash_self]
+  rcases ho with rfl | rfl | rfl | rfl | rfl | rfl | rfl | rfl <;> simp [mis2, tagClash_self, unitClash_self]
 
-theorem mis2_add_self (o : Op2) (ho : o = .add ∨ o = .mAdd) (x : Ty) (hx : x.isPt = false) :
+theorem mis2_add_self (o : Op2) (ho : o = .add ∨ o = .mAdd ∨ o = .addAssign) (x : Ty) (hx : x.isPt = false) :
     mis2 o x x = none := by
-  rcases ho with rfl | rfl <;> simp [mis2, hx, tagClash_self, unitClash_self]
+  rcases ho with rfl | rfl | rfl <;> simp [mis2, hx, tagClash_self, unitClash_self]
 
 end Retro.TypeAlg
